@@ -344,6 +344,16 @@ Definition get_message_code : list dstmt :=
 (* driver/netconf/rpc.go Driver.sendRPC (the polling goroutine as one effect) *)
 Definition send_rpc_code : list dstmt :=
   [DIf (DAtom "d.ForceSelfClosingTags") [] []; DCall "m.serialize(d.SelectedVersion, d.ForceSelfClosingTags, d.ExcludeHeader)"; DIf (DNot (DEq "err" "nil")) [DReturn "nil, err"] []; DAssign "r" "response.NewNetconfResponse( serialized.rawXML, serialized.framedXML, d.Transport.GetHost(), d.Transport.GetPort(), d.SelectedVersion, )"; DAssign "err" "d.Channel.WriteAndReturn(serialized.framedXML, false)"; DIf (DNot (DEq "err" "nil")) [DReturn "nil, err"] []; DIf (DEq "d.SelectedVersion" "V1Dot1") [DAssign "err" "d.Channel.WriteReturn()"; DIf (DNot (DEq "err" "nil")) [DReturn "nil, err"] []] []; DAssign "done" "make(chan []byte)"; DCall "context.WithCancel(context.Background()) -> ctx, cancel"; DCall "defer cancel()"; DCall "go func() { defer close(done) var data []byte for { if ctx.Err() != nil { return } data = d.getMessage(m.MessageID) if data != nil { break } time.Sleep(5 * time.Microsecond) } select { case done <- data: case <-ctx.Done(): } }()"; DAssign "timer" "time.NewTimer(d.Channel.GetTimeout(op.Timeout))"; DSwitch "select" [(["err = <-d.errs"], [DReturn "nil, err"]); (["<-timer.C"], [DReturn "nil, fmt.Errorf(""%w: channel timeout sending input to device"", util.ErrTimeoutError)"]); (["data := <-done"], [DCall "r.Record(data)"])]; DReturn "r, nil"].
+(* channel/read.go: the read-until functions *)
+Definition read_until_code : list (string * list dstmt) := [
+  ("Channel.ReadUntilFuzzy",
+   [DIf (DEq "len(b)" "0") [DReturn "nil, nil"] []; DRange "_" "forever" [DIf (DAtom "ready <-ctx.Done()") [DReturn "nil, ctx.Err()"] []; DCall "c.Read()"; DIf (DNot (DEq "err" "nil")) [DReturn "nil, err"] []; DIf (DEq "nb" "nil") [DCall "time.Sleep(c.ReadDelay)"; DContinue] []; DAssign "rb" "append(rb, nb...)"; DIf (DAtom "util.BytesRoughlyContains( b, processReadBuf(rb, getProcessReadBufSearchDepth(c.PromptSearchDepth, len(b))), )") [DReturn "rb, nil"] []]]);
+  ("Channel.ReadUntilExplicit",
+   [DIf (DEq "len(b)" "0") [DReturn "nil, nil"] []; DRange "_" "forever" [DIf (DAtom "ready <-ctx.Done()") [DReturn "nil, ctx.Err()"] []; DCall "c.Read()"; DIf (DNot (DEq "err" "nil")) [DReturn "nil, err"] []; DIf (DEq "nb" "nil") [DCall "time.Sleep(c.ReadDelay)"; DContinue] []; DAssign "rb" "append(rb, nb...)"; DIf (DAtom "bytes.Contains( processReadBuf(rb, getProcessReadBufSearchDepth(c.PromptSearchDepth, len(b))), b, )") [DReturn "rb, nil"] []]]);
+  ("Channel.ReadUntilPrompt",
+   [DRange "_" "forever" [DIf (DAtom "ready <-ctx.Done()") [DReturn "nil, ctx.Err()"] []; DCall "c.Read()"; DIf (DNot (DEq "err" "nil")) [DReturn "nil, err"] []; DIf (DEq "nb" "nil") [DCall "time.Sleep(c.ReadDelay)"; DContinue] []; DAssign "rb" "append(rb, nb...)"; DIf (DAtom "c.PromptPattern.Match(processReadBuf(rb, c.PromptSearchDepth))") [DReturn "rb, nil"] []]]);
+  ("Channel.ReadUntilAnyPrompt",
+   [DRange "_" "forever" [DIf (DAtom "ready <-ctx.Done()") [DReturn "nil, ctx.Err()"] []; DCall "c.Read()"; DIf (DNot (DEq "err" "nil")) [DReturn "nil, err"] []; DIf (DEq "nb" "nil") [DCall "time.Sleep(c.ReadDelay)"; DContinue] []; DAssign "rb" "append(rb, nb...)"; DAssign "prb" "processReadBuf(rb, c.PromptSearchDepth)"; DRange "p" "prompts" [DIf (DAtom "p.Match(prb)") [DReturn "rb, nil"] []]]])].
 (* the option loops of the constructors (C19) *)
 Definition option_loops : list (string * dstmt) := [
   ("driver/generic/driver.go NewDriver",
